@@ -24,12 +24,13 @@ EV_START = 12
 EV_KILLCMD = 13     # non-exclusive `kill` request for the watcher
 EV_SIGNALCMD = 14   # non-exclusive `signal` request (SIGUSR1)
 EV_SETOPT = 16      # set of a reload-class option (args / env / working_dir / max_age by param)
+EV_INCR_BIG = 17    # incr by 12 at once
 EV_NONE = 15
 
 NAMES = {EV_CHECK: 'check', EV_EXIT: 'exit', EV_XKILL: 'xkill', EV_INCR: 'incr', EV_DECR: 'decr',
          EV_SETNP: 'set_np', EV_RESTART: 'restart', EV_RELOAD: 'reload', EV_RELOAD_SEQ: 'reload_seq',
          EV_RELOAD_TERM: 'reload_term', EV_TIME: 'time', EV_STOP: 'stop', EV_START: 'start',
-         EV_KILLCMD: 'kill_cmd', EV_SIGNALCMD: 'signal_cmd', EV_NONE: 'none', EV_SETOPT: 'set_opt'}
+         EV_KILLCMD: 'kill_cmd', EV_SIGNALCMD: 'signal_cmd', EV_NONE: 'none', EV_SETOPT: 'set_opt', EV_INCR_BIG: 'incr_12'}
 
 # gaps -----------------------------------------------------------------------------------------
 GAP_NOW = 0         # immediately, without letting the loop turn
@@ -102,6 +103,8 @@ class Sched(object):
             req = w.send('kill', name=name, waiting=waiting)
         elif e == EV_SIGNALCMD:
             req = w.send('signal', name=name, signum=10)
+        elif e == EV_INCR_BIG:
+            req = w.send('incr', name=name, nb=12, waiting=waiting)
         elif e == EV_SETOPT:
             opts = ({'args': 'x y'}, {'env': {'A': 'b'}}, {'working_dir': '/tmp'}, {'max_age': 0})[p % 4]
             req = w.send('set', name=name, options=dict(opts), waiting=waiting)
